@@ -4,7 +4,7 @@
 Require Extraction.
 Require ExtrOcamlBasic.
 From KV Require Import Base.Prelude Keys.KeyModel Keyberon.Types Keyberon.Switch Keyberon.Layout
-  Parser.SwitchCompile Spec.BoolSpec Kanata.Glue Parser.SeqTable Parser.Sexpr Parser.Template Kanata.Zippy.
+  Parser.SwitchCompile Spec.BoolSpec Kanata.Glue Parser.SeqTable Parser.Sexpr Parser.Template Kanata.Zippy Kanata.Reload.
 Extraction Language OCaml.
 Extraction "model.ml"
   layout_event layout_tick init_layout keycodes current_layer evaluate_boolean switch_actions
@@ -13,4 +13,5 @@ Extraction "model.ml"
   k_input k_tick k_init k_is_idle k_can_block override_keys fakekey_action set_k_layout
   parse_ atom_res list_res fmt_sexpr parse_vars_items expand_templates
   z_init z_press z_release z_tick z_is_idle
+  next_index reload_due
   N.add N.mul N.of_nat N.to_nat.
